@@ -112,3 +112,185 @@ func verif_C18_script() {
 		}
 	}
 }
+
+// verif_C18_isolation: "every transaction", with the real client as its own
+// oracle. A transaction T2 (one or two recipients, each with its own verdict,
+// 2 arbitrary body octets, any of the three ways to open the data writer) is
+// run (A) on a client that has been through a first transaction T1 ending in
+// one of eight ways and (B) on a fresh client. What T2 writes to the wire, what
+// each of its calls returns, and which status callbacks run must be identical.
+func verif_C18_isolation() {
+	lmtp := nondetBool()
+	t1 := verifChoice(8)
+	m1, m2 := 1, 1
+	if lmtp {
+		m1, m2 = verifChoice(3), verifChoice(3)
+	}
+	nr := nondetInt(1, 2)
+	x, y := nondetByte(), nondetByte()
+	assume(x < 0x80 && y < 0x80 && x != '\r' && y != '\r')
+	ok1, ok2 := nondetBool(), nondetBool()
+
+	type obs struct {
+		wire  []byte
+		rets  []int
+		cbs   []vstatus
+		extra int
+	}
+	code := func(err error) int {
+		if err == nil {
+			return 0
+		}
+		if se, ok := err.(*SMTPError); ok {
+			return se.Code
+		}
+		return -1
+	}
+	open := func(c *Client, mode int, o *obs) (io.WriteCloser, error) {
+		switch mode {
+		case 0:
+			return c.LMTPData(func(rcpt string, st *SMTPError) {
+				k := 0
+				if st != nil {
+					k = st.Code
+				}
+				o.cbs = append(o.cbs, vstatus{rcpt, k})
+			})
+		case 2:
+			return c.LMTPData(nil)
+		}
+		return c.Data()
+	}
+	final := func(n int, ok bool) string {
+		s := ""
+		if !lmtp {
+			n = 1
+		}
+		for i := 0; i < n; i++ {
+			if ok {
+				s += "250 2.0.0 ok\r\n"
+			} else {
+				s += "554 5.3.0 no\r\n"
+			}
+		}
+		return s
+	}
+	first := func(c *Client, vc *vconn) {
+		var o obs
+		feed := func(s string) { vc.in = append(vc.in, s...) }
+		switch t1 {
+		case 0, 1: // complete, accepted / refused
+			feed("250 2.0.0 ok\r\n250 2.1.5 ok\r\n354 go\r\n" + final(1, t1 == 0))
+			c.Mail("a@v", nil)
+			c.Rcpt("b@v", nil)
+			if w, err := open(c, m1, &o); err == nil {
+				w.Write([]byte("hi\r\n"))
+				w.Close()
+			}
+		case 2: // MAIL refused
+			feed("550 5.1.0 no\r\n")
+			c.Mail("a@v", nil)
+		case 3: // RCPT refused, RSET
+			feed("250 2.0.0 ok\r\n550 5.1.1 no\r\n250 2.0.0 ok\r\n")
+			c.Mail("a@v", nil)
+			c.Rcpt("b@v", nil)
+			c.Reset()
+		case 4: // DATA refused
+			feed("250 2.0.0 ok\r\n250 2.1.5 ok\r\n554 5.3.0 no\r\n")
+			c.Mail("a@v", nil)
+			c.Rcpt("b@v", nil)
+			open(c, m1, &o)
+		case 5: // two recipients, RSET
+			feed("250 2.0.0 ok\r\n250 2.1.5 ok\r\n250 2.1.5 ok\r\n250 2.0.0 ok\r\n")
+			c.Mail("a@v", nil)
+			c.Rcpt("b@v", nil)
+			c.Rcpt("c@v", nil)
+			c.Reset()
+		case 6: // two recipients, mixed verdicts
+			fin := "250 2.0.0 ok\r\n"
+			if lmtp {
+				fin += "550 5.2.0 no\r\n"
+			}
+			feed("250 2.0.0 ok\r\n250 2.1.5 ok\r\n250 2.1.5 ok\r\n354 go\r\n" + fin)
+			c.Mail("a@v", nil)
+			c.Rcpt("b@v", nil)
+			c.Rcpt("c@v", nil)
+			if w, err := open(c, m1, &o); err == nil {
+				w.Write([]byte("hi\r\n"))
+				w.Close()
+			}
+		case 7: // writer closed twice
+			feed("250 2.0.0 ok\r\n250 2.1.5 ok\r\n354 go\r\n" + final(1, false))
+			c.Mail("a@v", nil)
+			c.Rcpt("b@v", nil)
+			if w, err := open(c, m1, &o); err == nil {
+				w.Close()
+				w.Close()
+			}
+		}
+	}
+	run := func(withFirst bool) obs {
+		var o obs
+		c, vc := verifClient("", nil)
+		c.lmtp = lmtp
+		if withFirst {
+			first(c, vc)
+			// whatever T1 left unread belongs to T1
+			vc.pos = len(vc.in)
+			// Reset deliberately forgets the greeting ("allow custom HELLO
+			// again"): greet again so that T2 starts from a greeted client
+			if !c.didHello {
+				vc.in = append(vc.in, "250 again\r\n"...)
+				c.hello()
+				vc.pos = len(vc.in)
+			}
+		}
+		mark := len(vc.out)
+		script := "250 2.0.0 ok\r\n250 2.1.5 ok\r\n"
+		if nr == 2 {
+			script += "250 2.1.5 ok\r\n"
+		}
+		script += "354 go\r\n"
+		if lmtp {
+			script += final(1, ok1)
+			if nr == 2 {
+				script += final(1, ok2)
+			}
+		} else {
+			script += final(1, ok1)
+		}
+		vc.in = append(vc.in, script...)
+		o.rets = append(o.rets, code(c.Mail("s@v", nil)))
+		o.rets = append(o.rets, code(c.Rcpt("r1@v", nil)))
+		if nr == 2 {
+			o.rets = append(o.rets, code(c.Rcpt("r2@v", nil)))
+		}
+		w, err := open(c, m2, &o)
+		o.rets = append(o.rets, code(err))
+		if err == nil {
+			w.Write([]byte{x, y, '\r', '\n'})
+			o.rets = append(o.rets, code(w.Close()))
+		}
+		o.wire = vc.out[mark:]
+		o.extra = len(vc.in) - vc.pos
+		return o
+	}
+	a := run(true)
+	b := run(false)
+	verifObserve("c18iso", lmtp, t1, m1, m2, nr, x, y, ok1, ok2, len(a.wire), len(b.wire), len(a.cbs), len(b.cbs), a.extra, b.extra)
+	verifAssert(string(a.wire) == string(b.wire), "C18.isolation-same-wire-octets")
+	verifAssert(len(a.rets) == len(b.rets), "C18.isolation-same-calls")
+	if len(a.rets) == len(b.rets) {
+		for i := range a.rets {
+			verifAssert(a.rets[i] == b.rets[i], "C18.isolation-same-results")
+		}
+	}
+	verifAssert(len(a.cbs) == len(b.cbs), "C18.isolation-same-callback-count")
+	if len(a.cbs) == len(b.cbs) {
+		for i := range a.cbs {
+			verifAssert(a.cbs[i] == b.cbs[i], "C18.isolation-same-callbacks")
+		}
+	}
+	verifAssert(a.extra == b.extra && b.extra == 0, "C18.isolation-consumes-exactly-its-replies")
+	verifReach("C18.isolation-end")
+}
